@@ -537,6 +537,19 @@ pub fn run(ctx: &Ctx, rep: &mut Report) {
         }
     }
     let mut r = ctx.rng("c01");
+    // (std / alloc) openers of many-fragment groups whose payload length times the announced count
+    // passes 2^24, 2^31 and 2^32: sizing arithmetic on untrusted header values
+    if !mon::is_noalloc() && ctx.shard == 1 % ctx.nshards {
+        for (len, n) in [(70_000usize, 255u8), (8_500_000, 255), (16_900_000, 255), (16_900_000, 128), (33_600_000, 255)] {
+            if len > 20_000_000 && !ctx.thorough() {
+                continue;
+            }
+            let mut h = Hist::new();
+            let pl: Vec<u8> = std::iter::repeat(b'w').take(len).collect();
+            h.feed(rep, "long-opener", nmea_ref::mk(n, 1, Some(3), &pl, 0), false);
+            h.feed(rep, "long-opener", nmea_ref::mk(n, 2, Some(3), b"0", 0), true);
+        }
+    }
     gen_repetition(ctx, rep, &mut r);
     gen_utf8_text(ctx, rep, &mut r);
     gen_huge(ctx, rep, &mut r);
